@@ -8,7 +8,8 @@ LEVEL = "proof"
 MODULE = "IwModel.Props.C03"
 THEOREMS = ["IwModel.C03." + t for t in (
     "sblk_roundtrip_over", "sblk_roundtrip", "sblk_enc_bytes", "kvindex_roundtrip", "kv_roundtrip",
-    "dbhdr_roundtrip_over", "dbhdr_roundtrip", "fsmhdr_roundtrip", "fsm_layout_total")]
+    "dbhdr_roundtrip_over", "dbhdr_roundtrip", "fsmhdr_roundtrip", "fsm_layout_total",
+    "holds_after_writes", "reopen_contents", "reopen_records")]
 MANIFEST = dict(
     level="proof",
     text=("Reopen is modelled as 'parse the closed file': theorems relate the Lean format reader to the contents (codec round trips), and the "
